@@ -1,6 +1,7 @@
 package main
 
 import (
+	"encoding/binary"
 	"crypto/sha256"
 	"encoding/json"
 	"fmt"
@@ -138,12 +139,55 @@ func (d *driver) runTranscriptProgram(w emitter, pid int, line []byte) {
 		acc := banderwagon.Generator
 		sacc := frFromBig(big.NewInt(41))
 		mbuf := []byte("scratch-buffer-0000")
+		var hashedPrefix []byte // what the hash state holds besides the pending buffer: the protocol label until the first challenge
 		for k, o := range seq {
+			if o.Op == "hunt" {
+				// an input built from the OTHER side: a counter message is searched for (with the driver's own SHA-256) such that the digest
+				// of the next challenge lands next to a multiple of r (arg "<k><a|b>": within 2^240 above / below k*r), where the
+				// reduction into the scalar field and any shortcut around it are decided; emitted as a msg event and a challenge event
+				lb := labelBytes(o.Label)
+				kk := int64(o.Arg[0] - '0')
+				above := strings.HasSuffix(o.Arg, "a")
+				kr := new(big.Int).Mul(modR, big.NewInt(kk))
+				win := new(big.Int).Lsh(big.NewInt(1), 240)
+				lo, hi := new(big.Int).Sub(kr, win), new(big.Int).Set(kr)
+				if above {
+					lo, hi = new(big.Int).Set(kr), new(big.Int).Add(kr, win)
+				}
+				base := append(append(append([]byte(nil), hashedPrefix...), common.VerifPending(t)...), lb...)
+				cl := []byte("hunt")
+				msg := make([]byte, 8)
+				start := uint64(rnd.intn(1 << 30))
+				for c := uint64(0); c < 4000000; c++ {
+					binary.LittleEndian.PutUint64(msg, start+c)
+					h := sha256.Sum256(append(append(append([]byte(nil), base...), msg...), cl...))
+					for i, j := 0, 31; i < j; i, j = i+1, j-1 {
+						h[i], h[j] = h[j], h[i]
+					}
+					d := new(big.Int).SetBytes(h[:])
+					if d.Cmp(lo) >= 0 && d.Cmp(hi) < 0 {
+						break
+					}
+				}
+				t.AppendMessage(msg, lb)
+				pend := common.VerifPending(t)
+				hs := sha256.Sum256(pend)
+				w.emit(ev{"ev": "t", "prog": pid, "run": run, "k": k, "op": "msg", "label": bytesToInts(lb), "last": false, "twin": kind,
+					"msg": map[string]interface{}{"lit": bytesToInts(msg)}, "arg_unchanged": true, "pending_len": len(pend), "pending_sha": bytesToInts(hs[:])})
+				c := t.ChallengeScalar(cl)
+				hashedPrefix = nil
+				pend = common.VerifPending(t)
+				hs = sha256.Sum256(pend)
+				w.emit(ev{"ev": "t", "prog": pid, "run": run, "k": k, "op": "challenge", "label": bytesToInts(cl), "last": false, "twin": kind,
+					"out": frReg(&c), "pending_len": len(pend), "pending_sha": bytesToInts(hs[:])})
+				continue
+			}
 			e := ev{"ev": "t", "prog": pid, "run": run, "k": k, "op": o.Op, "label": bytesToInts(labelBytes(o.Label)), "last": k == len(seq)-1, "twin": kind}
 			lb := labelBytes(o.Label)
 			switch o.Op {
 			case "new":
 				t = common.NewTranscript(string(lb))
+				hashedPrefix = append([]byte(nil), lb...)
 			case "domsep":
 				t.DomainSep(lb)
 			case "msg":
@@ -225,6 +269,7 @@ func (d *driver) runTranscriptProgram(w emitter, pid int, line []byte) {
 				x2, y2, z2 := banderwagon.VerifCoords(&pb)
 				e["arg_unchanged"] = x1 == x2 && y1 == y2 && z1 == z2
 			case "challenge":
+				hashedPrefix = nil
 				c := t.ChallengeScalar(lb)
 				e["out"] = frReg(&c)
 			}
